@@ -24,9 +24,24 @@ import (
 // every operation a snapshot (GetEntryQuietly for every key, EstimatedSize, Stats) is written.
 func init() { engines["seq"] = runSeq }
 
-type manualClock struct{ now int64 }
+// manualClock: a clock the harness sets.  When [hook] is armed, the next clock sample returns the
+// current time only after the hook has run (it advances the clock and runs maintenance): the
+// caller then works with a time that lies behind the timer wheel's — the interleaving "a write
+// samples the clock, maintenance runs at a later clock value, the write proceeds".
+type manualClock struct {
+	now  int64
+	hook func()
+}
 
-func (m *manualClock) NowNano() int64                          { return m.now }
+func (m *manualClock) NowNano() int64 {
+	if h := m.hook; h != nil {
+		m.hook = nil
+		old := m.now
+		h()
+		return old
+	}
+	return m.now
+}
 func (m *manualClock) Tick(d time.Duration) <-chan time.Time { return make(chan time.Time) }
 
 type ev struct {
@@ -104,6 +119,9 @@ type seqCase struct {
 	mkTarget     func(maximum uint64) *otter.Cache[int, int]
 	maintMode    bool  // closed-loop policy replay: restricted op mix, audits, maintenance markers
 	maintRuns    []int64
+	staleBase    int           // events before this index belong to the maintenance a stale write raced with
+	returnedAt   map[int]int64 // value -> clock when the write that created it returned
+	touched      []int
 	inTarget     bool
 	rndConst     uint32
 	pendingChans     []pendingRef
@@ -150,6 +168,8 @@ func tblStr(t []int64) string {
 func (s *seqCase) setup(caseNo int) {
 	r := s.r
 	s.nextVal = 100
+	s.returnedAt = map[int]int64{}
+	s.staleBase = 0
 	s.nkeys = 3 + r.intn(4)
 	combo := caseNo % 12
 	s.bound = combo % 3
@@ -654,6 +674,31 @@ func (s *seqCase) step() {
 		fn()
 	}
 	x := r.intn(118)
+	v0 := s.nextVal
+	defer func() {
+		for v := v0 + 1; v <= s.nextVal; v++ {
+			s.returnedAt[v] = s.now()
+		}
+		// a SetIfAbsent that found the entry is a read that may MOVE its deadline (with a stale clock
+		// sample: backwards); C13 speaks about deadlines set by operations that returned a tick ago
+		for _, v := range s.touched {
+			s.returnedAt[v] = s.now()
+		}
+		s.touched = s.touched[:0]
+	}()
+	if s.maintMode && s.withExp && x < 20 && r.chance(6) {
+		// stale write: the Set / SetIfAbsent below samples the clock, then maintenance runs at a later time
+		d := []int64{3, 1 << 30, 1<<30 + 1, 1 << 31, 1<<36 + 5, 1 << 42}[r.intn(6)]
+		if s.clk.now < math.MaxInt64/2 {
+			s.clk.hook = func() {
+				s.clk.now += d
+				s.maint("CleanUp (between a write's clock sample and its index update)", func() { c.CleanUp() })
+				s.staleBase = len(s.atomic)
+				s.t.line("STALE %d", now)
+				s.sum.Dist["stale_writes"]++
+			}
+		}
+	}
 	if s.maintMode {
 		// no bulk operations, refresh, InvalidateAll or iteration: one index action per operation
 		for (x >= 60 && x < 61) || (x >= 78 && x < 92) || (x >= 65 && x < 68) {
@@ -671,6 +716,9 @@ func (s *seqCase) step() {
 		opname = "SIA"
 		v := s.val()
 		ov, ok := c.SetIfAbsent(k, v)
+		if !ok {
+			s.touched = append(s.touched, ov)
+		}
 		line = fmt.Sprintf("O SIA %d %d %d", k, v, now)
 		ret = retVB(ov, ok)
 	case x < 30:
@@ -983,6 +1031,9 @@ func (s *seqCase) step() {
 	}
 	s.sum.Dist["op_"+opname]++
 	s.sum.Ops++
+	if s.staleBase > a0 {
+		a0 = s.staleBase
+	}
 	es := s.atomic[a0:]
 	cb := cbStr(s.loads[l0:])
 	if cbExtra != "" {
@@ -1006,13 +1057,15 @@ func runSeqMode(seed uint64, scale int, out string, maintMode bool) *summary {
 	defer t.close()
 	nCases := 96 * scale
 	for cn := 0; cn < nCases; cn++ {
-		s := &seqCase{r: r, sum: sum, t: t, maintMode: maintMode}
+		// one generator per case, seeded from the run's: what a case does then depends only on (seed, case
+		// number) and on that case's own implementation-dependent choices (sketch seeds are per process)
+		s := &seqCase{r: &rng{s: r.next()}, sum: sum, t: t, maintMode: maintMode}
 		s.setup(cn)
 		sum.Cases++
-		nops := 150 + r.intn(200)
+		nops := 150 + s.r.intn(200)
 		for i := 0; i < nops; i++ {
 			s.step()
-			if r.chance(65) {
+			if s.r.chance(65) {
 				s.drain()
 			}
 			s.snapshot()
@@ -1474,16 +1527,13 @@ func (s *seqCase) policyOracles(a otter.VerifAuditData[int, int]) {
 		// C13: after maintenance at T nothing whose deadline lies more than one tick before T is left
 		const tick = int64(1) << 30
 		for _, n := range a.Table {
-			if n.Exp < int64(a.WheelTime)-tick && s.writeReturnedBefore(n.Value, int64(a.WheelTime)-tick) {
+			if n.Exp < int64(a.WheelTime)-tick && s.returnedAt[n.Value] < int64(a.WheelTime)-tick {
 				s.sum.fail("C13", "unswept", "an entry expired more than one tick ago survived maintenance",
 					fmt.Sprintf("%s value=%d exp=%d wheelTime=%d", desc(), n.Value, n.Exp, a.WheelTime))
 			}
 		}
 	}
 }
-
-// writeReturnedBefore: in this single-goroutine engine every write has returned when the audit runs.
-func (s *seqCase) writeReturnedBefore(value int, t int64) bool { return true }
 
 func init() {
 	engines["maint"] = func(seed uint64, scale int, out string, replay string) *summary {
